@@ -32,7 +32,7 @@ package patch
 //@   at call go/format.Node assert [C12,C14] printed-with-the-same-file-set: arg1 == f.fset
 //@   ensures [C06] no-match-returns-input: matchCount == old(matchCount) && replFail == old(replFail) ==> (err == nil ==> out == src)
 //@   ensures [C07] output-parses: err == nil && out != src ==> Parses(string(out))
-//@   ensures [C12,C14] same-pipeline-as-cli: err == nil && out != src ==> exists n int :: n != 0 && string(out) == impProc(filename, fmtNode(n))
+//@   ensures [C12,C14,C18] same-pipeline-as-cli: err == nil && out != src ==> exists n int :: n != 0 && string(out) == impProc(filename, fmtNode(n))
 //@   ensures [C09,C16] failed-replace-reported: replFail > old(replFail) ==> (err != nil && out == nil)
 //@   loop 0
 //@     invariant snap != nil && snap.value != nil && wfV(snap.value)
